@@ -108,7 +108,7 @@ def solve_sat(
     solution_limit: int = 1,
     luby_factor: int = 100,
 ) -> Result:
-    if not clauses:
+    if not clauses and not assumptions:
         return Result({}, 0, 0, 0)
 
     all_solutions: list[dict[int, bool]] = []
